@@ -67,6 +67,11 @@ pub(crate) fn is_empty(s: &FrequencySketch) -> bool { s.table.is_empty() && s.si
 pub(crate) fn snapshot4(s: &FrequencySketch) -> ([u64; 4], u32) {
     ([s.table[0], s.table[1], s.table[2], s.table[3]], s.size)
 }
+/// sizing of a 4-word table as ensure_capacity(4) leaves it (sample_size = 10 * cap)
+pub(crate) fn sizing4() -> FrequencySketch {
+    let table: Box<[u64]> = Box::new([0u64; 4]);
+    FrequencySketch { sample_size: 40, table_mask: 3, table, size: 0 }
+}
 /// a second sketch with the given contents and the sizing of `like`
 pub(crate) fn rebuild4(words: [u64; 4], size: u32, like: &FrequencySketch) -> FrequencySketch {
     let table: Box<[u64]> = Box::new(words);
